@@ -250,3 +250,101 @@ pub fn text_strategy(max_base_len: usize, max_muts: usize) -> BoxedStrategy<Text
         })
         .boxed()
 }
+
+// ---------------------------------------------------------------------------------------------
+// small grammars for front-end corners the corpus does not reach
+
+struct TapeRd<'a> {
+    d: &'a [u16],
+    i: usize,
+}
+
+impl TapeRd<'_> {
+    fn n(&mut self, k: usize) -> usize {
+        let v = self.d.get(self.i).copied().unwrap_or(0);
+        self.i += 1;
+        pick_idx(v, k)
+    }
+}
+
+fn selfref_expr(t: &mut TapeRd, depth: usize, names: &[&str]) -> String {
+    let leaf = depth == 0 || t.i >= t.d.len();
+    let k = if leaf { t.n(4) } else { 4 + t.n(16) };
+    let mut sub = |t: &mut TapeRd| selfref_expr(t, depth.saturating_sub(1), names);
+    match k {
+        0 => names[0].to_string(),
+        1 => names[t.n(names.len())].to_string(),
+        2 => "1".to_string(),
+        3 => "\"s\"".to_string(),
+        4 => format!("({}, {})", sub(t), sub(t)),
+        5 => format!("[{}]", sub(t)),
+        6 => format!("{}({})", names[0], sub(t)),
+        7 => format!("({})({})", sub(t), sub(t)),
+        8 => format!("(y -> {})", sub(t)),
+        9 => format!("{} + {}", sub(t), sub(t)),
+        10 => format!("{} - {}", sub(t), names[0]),
+        11 => format!("option.some({})", sub(t)),
+        12 => format!("{{\n    let y = {}\n    {}\n  }}", sub(t), sub(t)),
+        13 => format!("if true {{ {} }} else {{ {} }}", sub(t), sub(t)),
+        14 => format!("match {} {{\n    _ -> {}\n  }}", sub(t), sub(t)),
+        15 => format!("({}, {}, {})", sub(t), names[0], sub(t)),
+        16 => format!("{}.0", sub(t)),
+        17 => format!("{}[0]", sub(t)),
+        18 => format!("{} == {}", sub(t), sub(t)),
+        _ => format!("{} .. {}", sub(t), sub(t)),
+    }
+}
+
+/// Functions (also mutually recursive, also unannotated) whose bodies mention themselves inside tuples,
+/// arrays, lambdas, options and calls: self-referential types, occurs checks, odd recursion.
+pub fn selfref_text(tape: &[u16]) -> String {
+    let mut t = TapeRd { d: tape, i: 0 };
+    let nf = 1 + t.n(2);
+    let mut out = String::new();
+    for i in 0..nf {
+        let (me, other) = if i == 0 { ("f", "g") } else { ("g", "f") };
+        let names: Vec<&str> = if nf == 2 { vec![me, "x", other] } else { vec![me, "x"] };
+        let params = ["", "x", "x, z", "x: int"][t.n(4)];
+        let names: Vec<&str> = if params.is_empty() { names.into_iter().filter(|n| *n != "x").collect() } else { names };
+        let depth = 1 + t.n(4);
+        let body = selfref_expr(&mut t, depth, &names);
+        out.push_str(&format!("fn {me}({params}) {{\n  {body}\n}}\n"));
+    }
+    out.push_str(["", "println(1)\n", "let r = f\n", "f\n"][t.n(4)]);
+    out
+}
+
+/// Triple-quoted strings with every mix of indentation (spaces, tabs, none), blank and short lines,
+/// inline or own-line closers, escapes and non-ASCII content.
+pub fn mlstring_text(tape: &[u16]) -> String {
+    let mut t = TapeRd { d: tape, i: 0 };
+    let mut out = String::new();
+    let outer = ["", "  ", "\t", "    "][t.n(4)];
+    let in_fn = t.n(3) == 0;
+    if in_fn {
+        out.push_str("fn s() -> string {\n");
+    }
+    out.push_str(&format!("{outer}let s = \"\"\"{}", ["", "x", " ", "\t"][t.n(4)]));
+    let lines = t.n(6);
+    for _ in 0..lines {
+        out.push('\n');
+        let ind = ["", " ", "  ", "    ", "\t", "\t\t", " \t", "\t ", "        "][t.n(9)];
+        let body = ["", "a", "ab", "abc def", "\\n", "\\t", "\\x41", "\\q", "é", "\"", "\"\"", "日本", " ", "\t", "x\t", "{}", "//c", "/*"][t.n(18)];
+        out.push_str(ind);
+        out.push_str(body);
+    }
+    match t.n(5) {
+        0 => out.push_str("\"\"\""),
+        1 => out.push_str("\n\"\"\""),
+        2 => out.push_str(&format!("\n{outer}\"\"\"")),
+        3 => out.push_str("\n\t\"\"\"  "),
+        _ => {}
+    }
+    out.push('\n');
+    if in_fn {
+        out.push_str("  s\n}\nprintln(s())\n");
+    } else {
+        out.push_str("println(s)\n");
+    }
+    out
+}
